@@ -20,6 +20,7 @@ RULE = (
     "return is compared with the float64 reference (rel 1e-5), plus order-independence, zero-on-equal, non-negativity, "
     "sum-of-steps and B_d invariance. Non-trivial: >=2 types and prediction/target stored in different orders; distinct by case config."
 )
+RULE += " Also: one reused jitted loss per kind, eps in {0.0, 0, 1e-5} on small-norm targets, NumPy-backed operands."
 ASSUMPTIONS = ["float64 NumPy reference losses vmon/ref/misc.py", "relative tolerance 1e-5 (float32 accumulation)"]
 ANCHORS = ["ginjax.ml.losses:smse_loss", "ginjax.ml.losses:timestep_smse_loss", "ginjax.ml.losses:normalized_smse_loss"]
 MIN_NONTRIVIAL = {"quick": 60, "thorough": 800}
